@@ -686,6 +686,9 @@ def run(repo, outdir):
         "replyhStages": ("radsecproxy.c", "replyh", ["buf2radmsg", "dorewrite", "checkttl", "msmppe", "pwdrecrypt", "resizeattr", "ensuremsgauthfront",
                                                      "addttlattr", "sendreply", "freerqoutdata", "fticks_log", "replylog"]),
         "dorewriteStages": ("rewrite.c", "dorewrite", ["dorewriterm", "dorewritemod", "dorewritesup", "dorewriteadd"]),
+        # C14: which lookups attribute an accepted TLS / DTLS connection to a client block (every one of them takes the peer's address)
+        "tlsAttribution": ("tls.c", "tlsservernew", ["find_clconf", "find_clconf_type", "find_all_clconf", "find_srvconf", "verifytlscert", "verifyconfcert", "addclient"]),
+        "dtlsAttribution": ("dtls.c", "dtlsservernew", ["find_clconf", "find_clconf_type", "find_all_clconf", "find_srvconf", "verifytlscert", "verifyconfcert", "addclient"]),
     }
     for lname, (cfile, fn, vocab) in STAGES.items():
         seq = None
